@@ -8,6 +8,8 @@
 //
 //	emit        calls a method of *protogen.GeneratedFile / (*Plugin).Error, directly or through other functions
 //	accumulate  appends to / writes into a variable that outlives the loop (the order may be emitted later)
+//	mutate      calls a function of the scanned packages that writes through a parameter / receiver / package variable
+//	            (the final state of shared objects may depend on the order)
 //	returns     returns from the enclosing function (e.g. an error naming the current element)
 //	sorted      every accumulated slice is passed to sort.* / slices.Sort* later in the same function
 //
@@ -196,9 +198,10 @@ func main() {
 		}
 		pkgs = append(pkgs, p)
 	}
-	s := &scanner{fset: fset, pkgs: pkgs, repo: *repo, decls: map[types.Object]*ast.FuncDecl{}, declPkg: map[types.Object]*pkgInfo{}, emits: map[types.Object]bool{}}
+	s := &scanner{fset: fset, pkgs: pkgs, repo: *repo, decls: map[types.Object]*ast.FuncDecl{}, declPkg: map[types.Object]*pkgInfo{}, emits: map[types.Object]bool{}, mutates: map[types.Object]bool{}}
 	s.index()
 	s.closure()
+	s.mutators()
 	seen := map[string]bool{}
 	for _, p := range pkgs {
 		for _, f := range p.files {
@@ -274,6 +277,7 @@ type scanner struct {
 	decls   map[types.Object]*ast.FuncDecl
 	declPkg map[types.Object]*pkgInfo
 	emits   map[types.Object]bool
+	mutates map[types.Object]bool // declared functions that write through a parameter / receiver / package variable
 }
 
 func (s *scanner) index() {
@@ -383,6 +387,100 @@ func (s *scanner) closure() {
 				s.emits[obj] = true
 				changed = true
 			}
+		}
+	}
+}
+
+// mutators: a declared function "mutates" if it assigns through a selector / index / dereference rooted at one of
+// its parameters, its receiver or a package-level variable, or calls a function that does. Called from the body of
+// an unordered iteration, such a function makes the final state depend on the iteration order (seeded change C40-2:
+// resolveCamelCaseConflict appends a suffix to the shared oneof name once per collision group).
+func (s *scanner) mutators() {
+	direct := func(p *pkgInfo, fd *ast.FuncDecl) bool {
+		params := map[types.Object]bool{}
+		add := func(fl *ast.FieldList) {
+			if fl == nil {
+				return
+			}
+			for _, f := range fl.List {
+				for _, n := range f.Names {
+					if obj := p.info.Defs[n]; obj != nil {
+						params[obj] = true
+					}
+				}
+			}
+		}
+		add(fd.Recv)
+		add(fd.Type.Params)
+		found := false
+		check := func(l ast.Expr) {
+			if _, plain := l.(*ast.Ident); plain {
+				// assignment to a package-level variable
+				if obj, ok := p.info.Uses[l.(*ast.Ident)].(*types.Var); ok && obj.Parent() == p.pkg.Scope() {
+					found = true
+				}
+				return
+			}
+			e := l
+			for {
+				switch x := e.(type) {
+				case *ast.SelectorExpr:
+					e = x.X
+					continue
+				case *ast.IndexExpr:
+					e = x.X
+					continue
+				case *ast.StarExpr:
+					e = x.X
+					continue
+				case *ast.ParenExpr:
+					e = x.X
+					continue
+				case *ast.Ident:
+					if obj := p.info.Uses[x]; obj != nil {
+						if v, ok := obj.(*types.Var); ok && (params[obj] || v.Parent() == p.pkg.Scope()) {
+							found = true
+						}
+					}
+				}
+				return
+			}
+		}
+		ast.Inspect(fd.Body, func(n ast.Node) bool {
+			switch x := n.(type) {
+			case *ast.AssignStmt:
+				for _, l := range x.Lhs {
+					check(l)
+				}
+			case *ast.IncDecStmt:
+				check(x.X)
+			}
+			return !found
+		})
+		return found
+	}
+	for obj, fd := range s.decls {
+		if direct(s.declPkg[obj], fd) {
+			s.mutates[obj] = true
+		}
+	}
+	for changed := true; changed; {
+		changed = false
+		for obj, fd := range s.decls {
+			if s.mutates[obj] {
+				continue
+			}
+			p := s.declPkg[obj]
+			ast.Inspect(fd.Body, func(n ast.Node) bool {
+				if call, ok := n.(*ast.CallExpr); ok {
+					if c := s.callee(p, call); c != nil && s.mutates[c] {
+						s.mutates[obj] = true
+						changed = true
+						return false
+					}
+				}
+				return !s.mutates[obj]
+			})
 		}
 	}
 }
@@ -607,7 +705,43 @@ func (s *scanner) classify(p *pkgInfo, fd *ast.FuncDecl, body ast.Node, closures
 			}
 		}
 	}
+	// local variables that hold freshly allocated memory (writes through them stay inside the iteration)
+	fresh := map[types.Object]bool{}
+	isFresh := func(e ast.Expr) bool {
+		switch x := e.(type) {
+		case *ast.CompositeLit:
+			return true
+		case *ast.UnaryExpr:
+			_, ok := x.X.(*ast.CompositeLit)
+			return x.Op == token.AND && ok
+		case *ast.CallExpr:
+			if id, ok := x.Fun.(*ast.Ident); ok && (id.Name == "new" || id.Name == "make") {
+				return true
+			}
+		}
+		return false
+	}
+	ast.Inspect(body, func(n ast.Node) bool {
+		if as, ok := n.(*ast.AssignStmt); ok && as.Tok == token.DEFINE && len(as.Lhs) == len(as.Rhs) {
+			for i, l := range as.Lhs {
+				if id, ok := l.(*ast.Ident); ok && isFresh(as.Rhs[i]) {
+					if obj := p.info.Defs[id]; obj != nil {
+						fresh[obj] = true
+					}
+				}
+			}
+		}
+		return true
+	})
+	isRef := func(obj types.Object) bool {
+		switch obj.Type().Underlying().(type) {
+		case *types.Pointer, *types.Map, *types.Slice, *types.Interface:
+			return true
+		}
+		return false
+	}
 	acc := map[string]bool{}
+	mut := map[string]bool{}
 	returns := false
 	ast.Inspect(body, func(n ast.Node) bool {
 		switch x := n.(type) {
@@ -615,11 +749,22 @@ func (s *scanner) classify(p *pkgInfo, fd *ast.FuncDecl, body ast.Node, closures
 			if !isCallback {
 				return true
 			}
+		case *ast.CallExpr:
+			if obj := s.callee(p, x); obj != nil && s.mutates[obj] {
+				mut[obj.Name()] = true
+			}
 		case *ast.AssignStmt:
 			for i, l := range x.Lhs {
 				obj, name := root(l)
-				if obj == nil || local[obj] || name == "_" {
+				if obj == nil || name == "_" {
 					continue
+				}
+				if local[obj] {
+					// a write *through* a local reference that was not allocated inside the body reaches shared memory
+					if _, plain := l.(*ast.Ident); plain || fresh[obj] || !isRef(obj) {
+						continue
+					}
+					name = "*" + name
 				}
 				if _, isVar := obj.(*types.Var); !isVar {
 					continue
@@ -671,6 +816,14 @@ func (s *scanner) classify(p *pkgInfo, fd *ast.FuncDecl, body ast.Node, closures
 		if len(sorted) > 0 {
 			parts = append(parts, "sorted="+strings.Join(sorted, ","))
 		}
+	}
+	if len(mut) > 0 {
+		var names []string
+		for n := range mut {
+			names = append(names, n)
+		}
+		sort.Strings(names)
+		parts = append(parts, "mutate="+strings.Join(names, ","))
 	}
 	if returns {
 		parts = append(parts, "returns")
